@@ -114,6 +114,24 @@ pub fn g_soup(s: &mut Src, max_frags: usize) -> String {
 
 /// dense repetition of one fragment (work/output linearity, deep stacks)
 pub fn g_repeat(s: &mut Src, max_rep: usize) -> String {
+    match s.below(10) {
+        0 => {
+            // '&' runs around the 2^k boundaries (MacroVarResolve payload = log2 of the run length)
+            let k = s.below(15);
+            let n = ((1usize << k) + s.below(3)).saturating_sub(1).max(1);
+            let n = if s.coin(1, 2) { n } else { 1 + s.below(40) };
+            let pre = s.pick(&["", "x=", "%put ", "\"", "%let a=", "%m(", "%eval("]);
+            let post = s.pick(&["a", "a.", "a;", " a", "", "1", "&b..c", "a&b"]);
+            return format!("{pre}{}{post}", "&".repeat(n));
+        }
+        1 => {
+            // a long run of one small fragment: capacity growth of the buffers, deep stacks
+            let f = s.pick(&[";", "a ", "(", "%m(", "%do;", "\n", "1 ", "'' ", "&a", "%str(", "\"&a", "/**/", "%if 1 %then ", ",", "%eval(", "é", "x=1;"]);
+            let n = 50 + s.below(65536) % 1500;
+            return f.repeat(n);
+        }
+        _ => {}
+    }
     let f = if s.coin(1, 4) { corpus_item(s, corpus()).to_string() } else { s.pick(FRAGS).to_string() };
     let g = if s.coin(1, 3) { s.pick(FRAGS).to_string() } else { String::new() };
     let n = 2 + s.below(max_rep);
